@@ -1,5 +1,5 @@
 import G3D.Proofs.GoodB
-import G3D.Proofs.BodySoundSets
+import G3D.Proofs.BodySoundInter
 
 /-! # Non-vacuity of the hypotheses: a constructed tetrahedron is `Good`
 
